@@ -14,9 +14,13 @@ TIERS = {'quick': {'runs': 12000, 'budget_s': 60},
 RUN_WALL = 90
 SHRINK_BUDGET_S = 60
 RULE = ('each run = generated listener configuration (queue size, 1-2 '
-        'callbacks with virtual durations / raising), 1-3 concurrent senders '
-        'with 1-3 sequential indications, a main script of start/stop/'
-        'restart/port-occupation at random points, executed under one seeded '
+        'callbacks with virtual durations / raising, optionally one callback '
+        'registered while the listener runs; http only, http+https, https '
+        'only, bad certificate, https port in use), 1-3 concurrent senders '
+        'with 1-3 sequential indications on either port, a main script of '
+        'start/stop/restart/port-occupation at random points, optionally an '
+        'end-of-run liveness probe after the queue has drained, executed '
+        'under one seeded '
         'schedule (policy uniform/sticky/PCT, optional line-level preemption '
         'inside _listener.py, optional early timer firing); non-trivial = at '
         'least one indication acknowledged and >= 5 context switches; '
@@ -32,13 +36,20 @@ COMPONENTS = {
              'queue.Queue -> SimQueue', 'socket/selectors -> in-memory port '
              'table, FakeListenSocket, SimConn, SimSelector',
              'time.sleep/time/monotonic -> virtual clock',
+             'ssl.SSLContext -> TLS stub (no handshake, no encryption)',
              'indication senders (byte-level HTTP clients)']}
 ASSUMPTIONS = [
     'SimQueue/SimEvent/SimThread implement the documented semantics of '
     'queue.Queue/threading.Event/threading.Thread',
     'threads are pre-empted only at synchronisation primitives, socket I/O, '
     'callback entry/exit and (fine mode) line boundaries of _listener.py',
-    'TLS is not simulated; HTTPS is only exercised up to start() failures']
+    'TLS is a stub: certificates are names (sim:good loads, sim:badpem is a '
+    'bad PEM file, other paths do not exist) and the wrapped server socket '
+    'is the plain simulated socket; what is exercised for HTTPS is the '
+    'two-server start/stop logic, not the TLS layer',
+    'the liveness probe is sent only after the queue is empty and every '
+    'item has been processed (task_done); sleeping is not used to establish '
+    'quiescence because timers may fire early']
 
 PORT = 5000
 SPORT = 5001
